@@ -155,3 +155,92 @@ func fatalTotality(c *ev.Collector, sig, detail string, input []byte, extra map[
 	fmt.Fprintf(os.Stderr, "VIOLATION sig=%s :: %s\n", sig, detail)
 	os.Exit(1)
 }
+
+// Per-case watchdog for the checks that do not run every library call under
+// guarded(): a generated case that keeps the library busy for caseLimit, or that
+// drives the live heap beyond caseHeapLimit, is a violation of the property the
+// case belongs to (a value the property quantifies over cannot be built, encoded
+// or decoded in bounded time and memory) - provided a goroutine is found inside
+// library code. Otherwise the process ends as inconclusive (exit 2).
+const (
+	caseLimit     = 150 * time.Second
+	caseHeapLimit = 3 << 30
+)
+
+var caseWD struct {
+	once  sync.Once
+	mu    sync.Mutex
+	armed bool
+	start time.Time
+	c     *ev.Collector
+}
+
+func caseArm(c *ev.Collector) {
+	caseWD.once.Do(func() {
+		go func() {
+			for range time.Tick(250 * time.Millisecond) {
+				caseWD.mu.Lock()
+				armed, start, col := caseWD.armed, caseWD.start, caseWD.c
+				caseWD.mu.Unlock()
+				if !armed {
+					continue
+				}
+				switch {
+				case time.Since(start) > caseLimit:
+					caseTrip(col, "hang", fmt.Sprintf("a generated case has kept running for more than %s", caseLimit))
+				case liveHeap() > caseHeapLimit:
+					caseTrip(col, "heap", fmt.Sprintf("the live heap exceeded %d GiB during a generated case", caseHeapLimit>>30))
+				}
+			}
+		}()
+	})
+	caseWD.mu.Lock()
+	caseWD.armed, caseWD.start, caseWD.c = true, time.Now(), c
+	caseWD.mu.Unlock()
+}
+
+func caseDisarm() {
+	caseWD.mu.Lock()
+	caseWD.armed = false
+	caseWD.mu.Unlock()
+}
+
+func caseTrip(c *ev.Collector, what, detail string) {
+	buf := make([]byte, 8<<20)
+	buf = buf[:runtime.Stack(buf, true)]
+	frame := ""
+	// a goroutine that is executing (or spinning on a lock) inside the library
+	for _, states := range [][]string{{"running", "runnable"}, {"semacquire", "sync.Mutex.Lock", "sync.RWMutex", "sleep"}} {
+		for _, g := range strings.Split(string(buf), "\n\n") {
+			head, _, _ := strings.Cut(g, "\n")
+			ok := false
+			for _, s := range states {
+				if strings.Contains(head, "["+s) {
+					ok = true
+				}
+			}
+			if !ok || strings.Contains(g, "checks.caseTrip") {
+				continue
+			}
+			if fr := libFrameFromStack(g); fr != "?" {
+				frame = fr
+				break
+			}
+		}
+		if frame != "" {
+			break
+		}
+	}
+	if frame == "" {
+		fmt.Fprintf(os.Stderr, "INCONCLUSIVE: %s, but no goroutine is inside library code\n%s\n", detail, clipStr(string(buf), 6000))
+		os.Exit(2)
+	}
+	fatalTotality(c, c.Property+"|"+what+"-on-generated-input|"+frame, detail+"; a goroutine is inside "+frame, nil, map[string]any{"stacks": clipStr(string(buf), 6000)})
+}
+
+func clipStr(s string, n int) string {
+	if len(s) > n {
+		return s[:n] + "..."
+	}
+	return s
+}
